@@ -372,6 +372,13 @@ def branch_jobs_and_run(seed, on_job=None, mode=None, cfg_override=None, fault_f
                     job['args']['branch_from'] = refs[gen.prs[-1]['src']][:12] if gen.prs[-1]['src'] in refs else ''
                 else:
                     job['args'].pop('branch_from', None)
+            if job['kind'] == 'delete_branch' and job['args'].get('branch') in refs and rng.random() < 0.5:
+                # the archive tag of the branch already exists (an earlier, aborted deletion; a release tag):
+                # on its tip, or on an older commit of the branch
+                b = job['args']['branch']
+                ver = b.split('/', 1)[1]
+                do({'e': 'tag_user', 'branch': b, 'back': rng.choice([0, 1, 1]),
+                    'tag': ver + '.archived_hotfix_branch' if b.startswith('hotfix/') else ver})
             do(job)
             if rng.random() < 0.25 and cfg['use_queue']:
                 do({'e': 'job_api', 'kind': rng.choice(['rebuild_queues', 'delete_queues'])})
@@ -440,6 +447,55 @@ def conflict_and_run(seed, on_job=None, mode=None, cfg_override=None, fault_for=
     finally:
         world.close()
     return {'cfg': cfg, 'events': events, 'seed': seed, 'family': 'conflict'}, log
+
+
+def manual_w_and_run(seed, on_job=None, mode=None, cfg_override=None, fault_for=None):
+    """Manual-commit family: a pull request with at least three targets gets its integration branches, then its
+    author pushes a commit on a *middle* integration branch (a hand-made fix); every tip is reported green and the
+    pull request is evaluated until it lands (directly, or through the queue).  The later integration branches must
+    pick the manual commit up (and be rebuilt) before anything is merged."""
+    rng = random.Random(seed * 49979687 + 29)
+    cfg = gen_cfg(rng, mode)
+    if len(dest_names(cfg['layout'])[0]) < 3:
+        cfg['layout'] = rng.choice([l for l in LAYOUTS if len(dest_names(l)[0]) >= 3])
+    cfg.update({'peers': 0, 'leaders': 0, 'need_author': False, 'build_key': 'pre-merge'})
+    if cfg_override:
+        cfg.update(cfg_override)
+    world = sysworld.World(cfg)
+    events, log = [], []
+
+    def do(ev):
+        events.append(ev)
+        sub = run_history(world, [ev], on_job=on_job, fault_for=fault_for)
+        log.extend(sub)
+        return sub[0]
+    try:
+        gen = Gen(rng, cfg)
+        ev = gen.new_pr()
+        ev['dst'] = rng.choice(gen.dests[:max(1, len(gen.dests) - 2)])
+        gen.prs[-1]['dst'] = ev['dst']
+        p = gen.prs[-1]
+        p['id'] = do(ev).get('res', {}).get('pr')
+        if p['id'] is not None:
+            do({'e': 'job_pr', 'pr': p['id']})
+            if rng.random() < 0.5:
+                for nme in gen.tips_of(p, world.refs()):
+                    do({'e': 'build', 'ref': nme, 'state': 'SUCCESSFUL'})
+            ws = [n for n in gen.tips_of(p, world.refs()) if n.startswith('w/')]
+            if len(ws) >= 2:
+                do({'e': 'push', 'branch': rng.choice(ws[:-1]), 'label': 'manual%d' % seed, 'as': AUTHOR})
+            for rounds in range(3):
+                for nme in gen.tips_of(p, world.refs()):
+                    do({'e': 'build', 'ref': nme, 'state': 'SUCCESSFUL'})
+                do({'e': 'job_pr', 'pr': p['id']})
+                q = sorted(n for n in world.refs() if n.startswith('q/w/'))
+                for nme in q:
+                    do({'e': 'build', 'ref': nme, 'state': 'SUCCESSFUL'})
+                if q:
+                    do({'e': 'job_commit', 'ref': rng.choice(q)})
+    finally:
+        world.close()
+    return {'cfg': cfg, 'events': events, 'seed': seed, 'family': 'manual_w'}, log
 
 
 def queue_matrix_and_run(seed, on_job=None, mode=None, cfg_override=None, fault_for=None):
